@@ -120,3 +120,10 @@ Proof.
   pose proof (walk_dirs_total s root) as [W1 W2].
   destruct (walk_dirs s root); try congruence; auto with c04.
 Qed.
+
+(* the TOC as the JSON decoder delivers it (nil TOC, nil entries) *)
+Lemma json_run_total d : total (json_run d).
+Proof.
+  destruct d as [| |es]; simpl; auto with c04.
+  destruct (strip_entries es); auto with c04. apply tree_run_total.
+Qed.
